@@ -295,11 +295,13 @@ func (c *GroupCoordinator) Heartbeat(ctx context.Context, req *kmsg.HeartbeatReq
 		c.mu.Unlock()
 		return mkResp(protocol.ILLEGAL_GENERATION)
 	}
+	// A heartbeat from a current member is a sign of life even while a rebalance
+	// is in progress; only the reply differs.
+	member.lastHeartbeat = time.Now()
 	if state.state != groupStateStable {
 		c.mu.Unlock()
 		return mkResp(protocol.REBALANCE_IN_PROGRESS)
 	}
-	member.lastHeartbeat = time.Now()
 	resp := mkResp(protocol.NONE)
 	if err := c.persistGroupLocked(ctx, req.Group, state); err != nil {
 		resp.ErrorCode = protocol.UNKNOWN_SERVER_ERROR
